@@ -188,6 +188,28 @@ def _has_octal(text):
     return re.search(r"(?<![0-9A-Za-zx])0[0-7]+", text) is not None
 
 
+def expand_isar_calls(txt):
+    """shiftLeft(a, b) -> ((a) << (b)), as other_schemas.rst documents for isar"""
+    while True:
+        p = txt.find("shiftLeft(")
+        if p < 0:
+            return txt
+        depth, comma, q = 0, None, p + len("shiftLeft")
+        for k in range(q, len(txt)):
+            ch = txt[k]
+            if ch == "(":
+                depth += 1
+            elif ch == ")":
+                depth -= 1
+                if depth == 0:
+                    end = k
+                    break
+            elif ch == "," and depth == 1:
+                comma = k
+        a, b = txt[q + 1:comma].strip(), txt[comma + 1:end].strip()
+        txt = txt[:p] + "((%s) << (%s))" % (a, b) + txt[end + 1:]
+
+
 def expr_worker(cases, wid, extra):
     """cases: list of {min, full, value, names}"""
     import prophyc.calc as calc
@@ -220,6 +242,7 @@ def expr_worker(cases, wid, extra):
         counts 0..31 on non-negative values, division truncates.  None when it
         is not an integer constant expression there."""
         import ast
+        txt = expand_isar_calls(txt)
         if "--" in txt:
             return None
 
@@ -414,9 +437,10 @@ def expr_worker(cases, wid, extra):
         used = []
         for off, c in enumerate(chunk):
             i = base_i + off
-            for tag, txt in (("M", c["min"]), ("F", c["full"])):
-                if not _has_octal(txt):
-                    used.append((i, tag, txt, c))
+            for tag, txt in (("M", c["min"]), ("F", c["full"]), ("I", c.get("isar", ""))):
+                if txt and not _has_octal(txt):
+                    # operator calls (tag I) are expanded in constants and enumerators only: no array extent
+                    used.append((i, tag, txt, dict(c, _nostruct=True) if tag == "I" else c))
         sub = tempfile.mkdtemp(prefix="i", dir=work)
         if cpp_on[0]:
             # the C++ back-ends get the texts a C++ compiler can read at all;
@@ -463,7 +487,7 @@ def expr_worker(cases, wid, extra):
             if got != v or isinstance(got, float):
                 fail(c, "isar -> python const (%s)" % txt, "the Python module evaluates the constant to %r, the expression "
                      "denotes %d" % (got, v))
-            if 1 <= v <= 64 and by["S%s%d" % (tag, i)].byte_size != v:
+            if 1 <= v <= 64 and not c.get("_nostruct") and by["S%s%d" % (tag, i)].byte_size != v:
                 fail(c, "isar array size (%s)" % txt, "model size is %r, expected %d" % (by["S%s%d" % (tag, i)].byte_size, v))
         shutil.rmtree(sub, ignore_errors=True)
         return "ok", None
